@@ -460,3 +460,16 @@ D_RECORDS, D_TREE, D_GENERIC, D_COMB, D_ZOO, D_SEM, D_SYN = DESIGNS
 D_EMPTYLIB = dict(name='a library without design units and an unfinished library clause', valid=False,
                   files=[('lib1', 'empty.vhd', '-- nothing here yet\n'), ('lib0', 'c.vhd', 'library \n\nentity c is\nend entity;\n\nuse \n')])
 DESIGNS.append(D_EMPTYLIB)
+
+
+def ieee_design(repo):
+    """ieee.std_logic_1164 (+ body) of the checkout under test and a user of the matching operators; the declared names of its types are case-permuted by C13"""
+    import os
+    d = os.path.join(repo, 'vhdl_libraries', 'ieee2008')
+    pkg = open(os.path.join(d, 'std_logic_1164.vhdl'), encoding='latin-1').read()
+    body = open(os.path.join(d, 'std_logic_1164-body.vhdl'), encoding='latin-1').read()
+    user = ("library ieee;\nuse ieee.std_logic_1164.all;\n\nentity u is\n  port (a, b : in std_logic_vector(3 downto 0); c : in std_ulogic; y, z : out std_logic);\nend entity;\n\n"
+            "architecture r of u is\nbegin\n  y <= a ?= b;\n  z <= c ?/= '1';\nend architecture;\n")
+    lines = [i for i, l in enumerate(pkg.split('\n')) if l.lower().startswith(('  type std_ulogic', '  subtype std_logic'))]
+    return dict(name='ieee.std_logic_1164 with body, and a user of ?= on std_logic_vector', valid=True, incremental=True, site_lines=lines,
+                files=[('ieee', 'std_logic_1164.vhdl', pkg), ('ieee', 'std_logic_1164-body.vhdl', body), ('lib0', 'u.vhd', user)])
